@@ -204,6 +204,9 @@ Proof.
     rewrite scalers_cons. repeat case_if; exact I.
 Qed.
 
+Theorem elems_ok_or_back : forall l, ok_or_back (fifo_entry l) /\ ok_or_back (scalers_block l).
+Proof. intro l. split; [apply fifo_entry_ok_or_back|apply scalers_block_ok_or_back]. Qed.
+
 (* ---------- the loops ---------- *)
 
 Lemma lenN_neq_of_shorter (r l : list N) : (length r < length l)%nat -> (lenN r =? lenN l) = false.
